@@ -370,6 +370,12 @@ def _f39(vio):
         not op.get("ascending") and "stability" in str((vio.get("detail") or {}).get("why", ""))
 
 
+@mechanism("F10d-reduce-outer-axis")
+def _f10d(vio):
+    return vio.get("kind") in ("wrong-value", "unexpected-error") and _op_of(vio).get("op") == "reduce" and \
+        _axis_is_outer(vio)
+
+
 @mechanism("F10-reduce-nonlocal")
 def _f10(vio):
     rep = _report(vio)
